@@ -73,6 +73,17 @@ def kick():
         pass
 
 
+def rearm():
+    """Re-install the watchdog's handler and re-arm it. The library's own custom timeout (SolverWrapper._run_with_timeout) replaces the
+    process-wide SIGALRM handler and cancels the alarm; a case that exercises it calls this afterwards."""
+    import signal
+    try:
+        signal.signal(signal.SIGALRM, _alarm)
+        signal.alarm(CASE_TIMEOUT)
+    except Exception:
+        pass
+
+
 def _work(arg):
     import signal
     try:
